@@ -41,7 +41,9 @@ pub struct C16;
 
 #[derive(Clone, Debug, PartialEq)]
 enum Ev {
-    Trans { rule: String, prev: u8, to: u8 },
+    /// `at_ms`: virtual time of the call-back; `completing`: the announcing thread is inside a completion
+    /// (as opposed to a request, whose exit hook rolls a rejected probe back without re-arming the retry time)
+    Trans { rule: String, prev: u8, to: u8, at_ms: u64, completing: bool },
     Decision { admitted: bool },
 }
 
@@ -53,19 +55,30 @@ fn st(s: cb::State) -> u8 {
     }
 }
 
+shuttle::thread_local! {
+    static COMPLETING: std::cell::Cell<bool> = std::cell::Cell::new(false);
+}
+
+fn mark() -> (u64, bool) {
+    (vc::now_ms(), COMPLETING.with(|c| c.get()))
+}
+
 struct Recorder {
     log: Arc<Mutex<Vec<Ev>>>,
 }
 
 impl cb::StateChangeListener for Recorder {
     fn on_transform_to_closed(&self, prev: cb::State, rule: Arc<cb::Rule>) {
-        self.log.lock().unwrap().push(Ev::Trans { rule: rule.id.clone(), prev: st(prev), to: 0 });
+        let (at_ms, completing) = mark();
+        self.log.lock().unwrap().push(Ev::Trans { rule: rule.id.clone(), prev: st(prev), to: 0, at_ms, completing });
     }
     fn on_transform_to_open(&self, prev: cb::State, rule: Arc<cb::Rule>, _s: Option<Arc<Snapshot>>) {
-        self.log.lock().unwrap().push(Ev::Trans { rule: rule.id.clone(), prev: st(prev), to: 1 });
+        let (at_ms, completing) = mark();
+        self.log.lock().unwrap().push(Ev::Trans { rule: rule.id.clone(), prev: st(prev), to: 1, at_ms, completing });
     }
     fn on_transform_to_half_open(&self, prev: cb::State, rule: Arc<cb::Rule>) {
-        self.log.lock().unwrap().push(Ev::Trans { rule: rule.id.clone(), prev: st(prev), to: 2 });
+        let (at_ms, completing) = mark();
+        self.log.lock().unwrap().push(Ev::Trans { rule: rule.id.clone(), prev: st(prev), to: 2, at_ms, completing });
     }
 }
 
@@ -93,7 +106,7 @@ impl Prop for C16 {
         crate::common::classify(self.id(), loc, msg)
     }
     fn rule_text(&self) -> &'static str {
-        "seeded thread programs around each breaker transition, set up sequentially inside the execution and then raced by 2-3 simulated threads under our own seeded scheduler: (S1) Open with the retry timeout elapsed, threads request entries; (S2) Closed one error short of the threshold, threads complete entries with errors; (S3) Half-Open with the probe in flight, its completion (ok|error) races with new requests and stale completions; (S4) a probe rejected by a second, still Open breaker, racing with other requests and with stale completions that decide the Half-Open phase first. The virtual clock is frozen during the race. Oracles over a totally ordered event log (listener callbacks + decisions): per breaker the transitions form a valid path with matching previous state, each performed once; S1 exactly one admitted probe; S2 exactly one Closed->Open; S3 a request is admitted only after Half-Open->Closed; S4 nobody admitted and every Half-Open phase ended by a roll-back or a close; final state = last transition. Non-trivial = execution with >= 1 preemption; distinct = distinct (schedule, outcome) hash."
+        "seeded thread programs around each breaker transition, set up sequentially inside the execution and then raced by 2-3 simulated threads under our own seeded scheduler: (S1) Open with the retry timeout elapsed, threads request entries; (S2) Closed one error short of the threshold, threads complete entries with errors; (S3) Half-Open with the probe in flight, its completion (ok|error) races with new requests and stale completions; (S4) a probe rejected by a second, still Open breaker, racing with other requests and with stale completions that decide the Half-Open phase first. The virtual clock is frozen during the race. Oracles over a totally ordered event log (listener callbacks + decisions): per breaker the transitions form a valid path with matching previous state, each performed once, and no Open->Half-Open happens before the retry time of the current Open phase (armed by the completion that opened it, untouched by a roll-back); S1 exactly one admitted probe; S2 exactly one Closed->Open; S3 a request is admitted only after Half-Open->Closed; S4 nobody admitted and every Half-Open phase ended by a roll-back or a close; final state = last transition. Non-trivial = execution with >= 1 preemption; distinct = distinct (schedule, outcome) hash."
     }
     fn components(&self) -> Value {
         json!({"real": ["sentinel-core (mechanically rewritten copy): circuit-breaker slot, stat slot, BreakerBase transitions and exit-hook rollback, the breakers, manager, EntryBuilder, slot chain"],
@@ -107,7 +120,8 @@ impl Prop for C16 {
         match kind {
             1 => {
                 for _ in 0..ntasks {
-                    tasks.push(vec![if rng.chance(3, 4) { TaskOp::Enter } else { TaskOp::EnterComplete { err: rng.chance(1, 2) } }]);
+                    // a probe that fails at once re-opens the breaker while other requests are still deciding
+                    tasks.push(vec![if rng.chance(1, 2) { TaskOp::Enter } else { TaskOp::EnterComplete { err: rng.chance(2, 3) } }]);
                 }
             }
             2 => {
@@ -179,7 +193,9 @@ fn complete(e: &EntryStrongPtr, err: bool) {
     if err {
         e.set_err(sentinel_core::Error::msg("simulated downstream failure"));
     }
+    COMPLETING.with(|c| c.set(true));
     e.exit();
+    COMPLETING.with(|c| c.set(false));
 }
 
 fn body(epoch_ns: u64, prog: &Program, obs: Obs) {
@@ -297,10 +313,27 @@ fn body(epoch_ns: u64, prog: &Program, obs: Obs) {
     for b in &breakers {
         let id = b.bound_rule().id.clone();
         let mut cur = 0u8;
+        let mut deadline: Option<u64> = None;
         for (k, e) in all.iter().enumerate() {
-            if let Ev::Trans { rule, prev, to } = e {
+            if let Ev::Trans { rule, prev, to, at_ms, completing } = e {
                 if *rule != id {
                     continue;
+                }
+                // retry deadline of the current Open phase, as the state machine prescribes it: armed when a
+                // completion opens the breaker, left alone when a rejected probe is rolled back
+                if *to == 1 && (*prev == 0 || *completing) {
+                    deadline = Some(*at_ms + b.bound_rule().retry_timeout_ms as u64);
+                }
+                if *to == 2 {
+                    if let Some(d) = deadline {
+                        if *at_ms < d {
+                            oracle_fail!(
+                                "C16/probe-admitted-before-retry-timeout",
+                                "breaker {}: Open -> Half-Open announced at t={} ms, but the current Open phase began with a completion and may be probed only from t={} ms (events: {:?})",
+                                id, at_ms, d, all.iter().filter(|x| matches!(x, Ev::Trans { rule, .. } if *rule == id)).collect::<Vec<_>>()
+                            );
+                        }
+                    }
                 }
                 let legal = matches!((*prev, *to), (0, 1) | (1, 2) | (2, 0) | (2, 1));
                 if *prev != cur || !legal {
@@ -325,7 +358,7 @@ fn body(epoch_ns: u64, prog: &Program, obs: Obs) {
     cb::clear_state_change_listeners();
     let admitted = race.iter().filter(|e| matches!(e, Ev::Decision { admitted: true })).count();
     let decisions = race.iter().filter(|e| matches!(e, Ev::Decision { .. })).count();
-    let b1_trans: Vec<(u8, u8)> = race.iter().filter_map(|e| if let Ev::Trans { rule, prev, to } = e { if rule == "b1" { Some((*prev, *to)) } else { None } } else { None }).collect();
+    let b1_trans: Vec<(u8, u8)> = race.iter().filter_map(|e| if let Ev::Trans { rule, prev, to, .. } = e { if rule == "b1" { Some((*prev, *to)) } else { None } } else { None }).collect();
     obs.lock().unwrap().push(admitted as u64 * 100 + b1_trans.len() as u64);
     match prog.kind {
         1 => {
